@@ -179,3 +179,96 @@ func (cp CFGPath) ResolveAt(v ssa.Value, at *ssa.BasicBlock) ssa.Value {
 	}
 	return v
 }
+
+// Deref resolves a value along the path: phis by the predecessor taken, loads of
+// local allocs (named results spilled because of defers, address-taken locals)
+// by the last store to that alloc on the path before the load.
+func (cp CFGPath) Deref(v ssa.Value) ssa.Value {
+	for depth := 0; depth < 24; depth++ {
+		switch x := v.(type) {
+		case *ssa.Phi:
+			nv := cp.ResolveAt(x, x.Block())
+			if nv == v {
+				return v
+			}
+			v = nv
+		case *ssa.UnOp:
+			if x.Op != token.MUL {
+				return v
+			}
+			al, ok := x.X.(*ssa.Alloc)
+			if !ok {
+				return v
+			}
+			var last ssa.Value
+			found := false
+		outer:
+			for _, b := range cp.Blocks {
+				for _, in := range b.Instrs {
+					if in == ssa.Instruction(x) {
+						found = true
+						break outer
+					}
+					if st, ok := in.(*ssa.Store); ok && st.Addr == ssa.Value(al) {
+						last = st.Val
+					}
+				}
+			}
+			if !found || last == nil {
+				return v
+			}
+			v = last
+		case *ssa.ChangeType:
+			v = x.X
+		case *ssa.MakeInterface:
+			v = x.X
+		default:
+			return v
+		}
+	}
+	return v
+}
+
+// Canon renders a pure expression canonically along the path (phis and alloc
+// loads resolved) so that two computations of the same quantity compare equal.
+func (cp CFGPath) Canon(v ssa.Value) string {
+	return cp.canon(v, 0)
+}
+
+func (cp CFGPath) canon(v ssa.Value, depth int) string {
+	if depth > 12 {
+		return "?"
+	}
+	v = cp.Deref(v)
+	switch x := v.(type) {
+	case *ssa.Const:
+		if x.Value == nil {
+			return "nil"
+		}
+		return x.Value.ExactString()
+	case *ssa.BinOp:
+		a, b := cp.canon(x.X, depth+1), cp.canon(x.Y, depth+1)
+		if (x.Op == token.ADD || x.Op == token.MUL) && a > b {
+			a, b = b, a
+		}
+		return "(" + a + x.Op.String() + b + ")"
+	case *ssa.Convert:
+		if isIntegerLike(x.Type()) && isIntegerLike(x.X.Type()) {
+			return cp.canon(x.X, depth+1)
+		}
+	case *ssa.Extract:
+		return cp.canon(x.Tuple, depth+1) + "#" + itoa(x.Index)
+	}
+	return v.Name() + "@" + v.Parent().Name()
+}
+
+// TruthOf reports the recorded truth of a condition equal (after Deref of its
+// operands) to the given predicate; used to look up facts by shape.
+func (cp CFGPath) FindTruth(match func(cond ssa.Value) bool) (truth bool, found bool) {
+	for cond, t := range cp.Truth {
+		if match(cond) {
+			return t, true
+		}
+	}
+	return false, false
+}
